@@ -116,3 +116,32 @@ Fixpoint wc_run_ops (s : wstream) (c : console) (ops : list sop) : option (wstre
       '(s2, c2, rs) <- wc_run_ops s1 c1 rest ;;
       Some (s2, c2, r :: rs)
   end.
+
+(* ---- vocabulary of the function translator (tools/gen_fn_stream.py, Generated/WinconStreamFn.v) ----
+   Small adapters only: no existing definition changes meaning. *)
+Definition ekind_eqb (a b : ekind) : bool :=
+  match a, b with
+  | Interrupted, Interrupted | WouldBlock, WouldBlock | Other, Other | WriteZero, WriteZero => true
+  | _, _ => false
+  end.
+
+(* WinconBytesIter as a cursor (the remaining bytes); the `&mut WinconBytes` it holds is threaded
+   through every `next`; creating it is extract_next's capture.reset() *)
+Definition wci_enter (s : wstream) : wstream :=
+  mkWS (ws_parser s) (mkCap (c_style (ws_capture s)) (c_printable (ws_capture s)) None).
+Definition wci_new (buf : list N) : list N := buf.
+Definition wci_next (it : list N) (s : wstream) : option (option (sstyle * list N) * list N * wstream) :=
+  '(item, bs1, p1, cap1) <- wincon_next it (ws_parser s) (ws_capture s) ;;
+  Some (item, bs1, mkWS p1 cap1).
+
+(* Ansi256Color::into_ansi (crates/anstyle) *)
+Definition idx_into_ansi (i : N) : option N := if i <? 16 then Some i else None.
+
+(* calls on the console (`raw: &mut dyn anstyle_wincon::WinconStream`) *)
+Definition wc_raw_flush (c : console) : console * (unit + ekind) :=
+  (mkCon (con_script c) (con_calls c) (con_flushes c + 1), inl tt).
+
+(* the struct WinconStream { raw, state } *)
+Record wcstream : Set := mkWCS { wcs_raw : console; wcs_state : wstream }.
+Definition set_wcs_raw (x : wcstream) (c : console) : wcstream := mkWCS c (wcs_state x).
+Definition set_wcs_state (x : wcstream) (s : wstream) : wcstream := mkWCS (wcs_raw x) s.
